@@ -83,6 +83,7 @@ type Rig struct {
 	FromAppErr   func(m *quickfix.Message) quickfix.MessageRejectError
 	FromAdminErr func(m *quickfix.Message) quickfix.MessageRejectError
 	InCallback   func(kind string)         // hook for schedule perturbation (C02)
+	OnLogonDo    func()                    // what the application does inside its OnLogon callback (e.g. send)
 	VirtualNow   func() time.Time          // when set, the store's creation time lives on this clock (see SetVirtualClock)
 	EditAdmin    func(m *quickfix.Message) // the application edits an outgoing administrative message in ToAdmin
 	RecordSaves  bool                      // trace every completed outbound save ("store.Save") / number increment ("store.IncrSender")
@@ -274,7 +275,12 @@ func (a app) cb(kind string, m *quickfix.Message) Entry {
 }
 
 func (a app) OnCreate(quickfix.SessionID) { a.r.add(Entry{Kind: "OnCreate"}) }
-func (a app) OnLogon(quickfix.SessionID)  { a.r.add(a.cb("OnLogon", nil)) }
+func (a app) OnLogon(quickfix.SessionID) {
+	a.r.add(a.cb("OnLogon", nil))
+	if a.r.OnLogonDo != nil {
+		a.r.OnLogonDo()
+	}
+}
 func (a app) OnLogout(quickfix.SessionID) { a.r.add(a.cb("OnLogout", nil)) }
 func (a app) ToAdmin(m *quickfix.Message, _ quickfix.SessionID) {
 	a.r.add(a.cb("ToAdmin", m))
